@@ -489,7 +489,98 @@ def r05_7(ctx) -> None:
                   construct=f"reachable registration {w.short}")
 
 
+def r05_9(ctx, verified: List[FunctionInfo]) -> None:
+    """the gate's refusal propagates: no call of an algorithm gate (get_alg / get_enc / get_zip / check_header of a registry) sits in
+    a `try` whose handler catches the refusal and can complete normally (an unlisted algorithm would merely be skipped)"""
+    from .common import handler_catches
+    eng = ctx.eng
+    P = eng.prog
+    gates = set(verified)
+    for c in REG_CLASSES:
+        k = P.cls(c)
+        for kk in [k] + k.all_subclasses():
+            for nm in ("get_alg", "get_enc", "get_zip", "check_header"):
+                m = kk.methods.get(nm)
+                if m is not None:
+                    gates.add(m)
+    scope: Set[FunctionInfo] = set()
+    for e in eng.operation_entries():
+        scope.update(scope_of(eng, e))
+    n = 0
+    for fn in scope:
+        if fn.name == "<module>":
+            continue
+        tries = [x for x in fn_nodes(fn) if isinstance(x, ast.Try)]
+        if not tries:
+            continue
+        cfg = cfg_of(fn)
+        for s in eng.cg.calls_in(fn):
+            if not (isinstance(s.node, ast.Call) and s.callees and any(c in gates for c in s.callees)):
+                continue
+            for tr in tries:
+                if not any(s.node is y for b in tr.body for y in ast.walk(b)):
+                    continue
+                n += 1
+                bad = None
+                for h in tr.handlers:
+                    caught = [c.split(":")[-1].split(".")[-1] for c in handler_catches(eng, fn, h)]
+                    if not any(c in ("JoseError", "UnsupportedAlgorithmError", "Exception", "BaseException", "*", "ValueError") for c in caught):
+                        continue
+                    hn = [x for x in cfg.nodes if x.kind == "handler" and x.ast is h]
+                    if hn:
+                        r = cfg.reachable(hn[0])
+                        if cfg.exit in r or any(x.kind == "loop" for x in r):
+                            bad = h
+                ctx.check(bad is None, "R05.9", fn, s.node, f"{fn.short} :: {norm(s.node)[:50]} inside try", f"the refusal of `{norm(s.node)[:50]}` can be swallowed: an enclosing handler catches "
+                          "it and can complete normally, so a token naming an unlisted algorithm is skipped instead of refused", "gate outside the try / handler always re-raises",
+                          construct=f"gate {norm(s.node)[:50]} inside a swallowing try")
+    ctx.ok("R05.9", "gates inside try blocks", f"{n} gate call(s) inside a try block, none with a handler that can complete normally")
+
+
+def r05_10(ctx) -> None:
+    """a registry object is built inside an operation only from the call's own `algorithms` argument and only when that argument is
+    given or the caller passed no registry: an explicit registry is never replaced by one that lost its allow-list"""
+    eng = ctx.eng
+    P = eng.prog
+    fam: Set[ClassInfo] = set()
+    for c in REG_CLASSES:
+        k = P.cls(c)
+        fam.add(k)
+        fam.update(k.all_subclasses())
+    scope: Set[FunctionInfo] = set()
+    for e in eng.operation_entries():
+        scope.update(scope_of(eng, e))
+    n = 0
+    for fn in scope:
+        if fn.name == "<module>":
+            continue
+        for s in eng.cg.calls_in(fn):
+            if s.kind != "ctor" or not isinstance(s.node, ast.Call) or not any(c.cls in fam for c in s.callees):
+                continue
+            n += 1
+            cfg = cfg_of(fn)
+            sn = cfg.node_of(s.node)
+            init = s.callees[0]
+            a = eng.cg.arg_for_param(s, init, "algorithms")
+            ok_arg = a is not None and isinstance(a, ast.Name) and a.id in fn.params
+            tests = []
+            for t in cfg.nodes:
+                if t.kind != "test" or t.ast is None:
+                    continue
+                if ok_arg and norm(t.ast) == a.id:
+                    tests.append(t)
+                elif isinstance(t.ast, ast.Compare) and len(t.ast.ops) == 1 and isinstance(t.ast.ops[0], ast.Is) and is_const(t.ast.comparators[0], None) \
+                        and isinstance(t.ast.left, ast.Name) and t.ast.left.id in fn.params and "registry" in t.ast.left.id:
+                    tests.append(t)
+            ok_ctl = bool(tests) and sn is not None and sn not in cfg.reachable(cfg.entry, edge_filter=lambda x, y, lab, _t=tests: not (x in _t and lab == "true"))
+            ctx.check(ok_arg and ok_ctl, "R05.10", fn, s.node, f"{fn.short} :: {norm(s.node)[:60]}", f"`{norm(s.node)[:70]}` builds a registry "
+                      + ("without the call's `algorithms` argument" if not ok_arg else "although the caller passed a registry and no `algorithms`: the caller's allow-list is dropped"),
+                      "Registry(algorithms=algorithms) under `if algorithms` / `if registry is None`", construct=f"registry construction in {fn.short}")
+    ctx.count("R05.10", n, 9, "registry constructions in operation-reachable functions")
+
+
 def run(ctx) -> None:
+    ctx.guard(r05_10)
     ctx.guard(r05_1)
     verified = ctx.guard(r05_3) or []
     ctx.extra["verified_gates"] = [f.short for f in verified]
@@ -498,6 +589,7 @@ def run(ctx) -> None:
     ctx.guard(r05_5, verified)
     ctx.guard(r05_6)
     ctx.guard(r05_7)
+    ctx.guard(r05_9, verified)
     # every zip value that is present is looked up (and refused when unknown): the compression condition is presence, not truthiness
     from .c04 import r04_2
     ctx.guard_as("R05.8", r04_2)
